@@ -45,7 +45,7 @@ for f in $FILES; do
   if [ $# -gt 0 ]; then hit=0; for pat in "$@"; do case "$name" in *"$pat"*) hit=1;; esac; done; [ $hit = 1 ] || continue; fi
   if ! git -C "$WT" apply "$f" 2>/dev/null; then echo "$name APPLY-FAILED" | tee -a "$OUT.tmp"; fail=1; continue; fi
   blog=$(cd "$H" && cargo build --release --offline 2>&1); bcode=$?
-  case " $props " in *" C09 "*)
+  case " $props " in *" C09 "*|*" C12 "*)
     # the end-to-end lane runs the real binary: build it from the scratch tree too
     if [ $bcode -eq 0 ]; then
       mkdir -p "$S/e2e"
